@@ -1,8 +1,10 @@
 package retriever
 
 import (
+	"encoding/json"
 	"fmt"
 	"sort"
+	"strconv"
 	"time"
 
 	"github.com/specterops/dawgs/graph"
@@ -104,6 +106,66 @@ type FragmentEdge struct {
 	EndID      string         `json:"end_id"`
 	Kind       string         `json:"kind"`
 	Properties map[string]any `json:"properties,omitempty"`
+}
+
+// jsonNumberNormalizer is implemented by fragment records whose free-form property maps are
+// decoded with json.Decoder.UseNumber and must be turned back into plain Go numbers.
+type jsonNumberNormalizer interface {
+	normalizeJSONNumbers() error
+}
+
+func (s *FragmentNode) normalizeJSONNumbers() error {
+	return normalizeJSONNumberMap(s.Properties)
+}
+
+func (s *FragmentEdge) normalizeJSONNumbers() error {
+	return normalizeJSONNumberMap(s.Properties)
+}
+
+func normalizeJSONNumberMap(values map[string]any) error {
+	for key, value := range values {
+		normalized, err := normalizeJSONNumberValue(value)
+		if err != nil {
+			return fmt.Errorf("property %q: %w", key, err)
+		}
+		values[key] = normalized
+	}
+
+	return nil
+}
+
+// normalizeJSONNumberValue replaces json.Number values with int64 when the literal is an integer
+// in range, uint64 for larger non-negative integers and float64 otherwise, so that integers beyond
+// 2^53 survive a dump and load unchanged.
+func normalizeJSONNumberValue(value any) (any, error) {
+	switch typedValue := value.(type) {
+	case json.Number:
+		if integer, err := strconv.ParseInt(string(typedValue), 10, 64); err == nil {
+			return integer, nil
+		}
+		if unsigned, err := strconv.ParseUint(string(typedValue), 10, 64); err == nil {
+			return unsigned, nil
+		}
+
+		return typedValue.Float64()
+
+	case map[string]any:
+		return typedValue, normalizeJSONNumberMap(typedValue)
+
+	case []any:
+		for index, item := range typedValue {
+			normalized, err := normalizeJSONNumberValue(item)
+			if err != nil {
+				return nil, err
+			}
+			typedValue[index] = normalized
+		}
+
+		return typedValue, nil
+
+	default:
+		return value, nil
+	}
 }
 
 func newManifest(driverName string, codec CompressionCodec, compressionLevel int, scrub ScrubMetadata, graphCount int) Manifest {
